@@ -206,6 +206,8 @@ class Replayer:
             await self.request(s)
         await self.probe()
         await self.world.shutdown()
+        if fs.FAKE_GAPS:
+            self.ev.append({"e": "fakegap", "what": fs.FAKE_GAPS[-1], "d": {"st": 0, "cfg": 0, "idx": 0}})
         return self.ev
 
 
@@ -270,6 +272,9 @@ def main(argv_tier=None, replay_path=None):
         if not lverd["L%d" % k]["ok"]:
             traces.append({"tid": "L%d" % k, "ev": ev, "history": traces[k]["history"]})
             verdicts["L%d" % k] = lverd["L%d" % k]
+    gaps = [e["what"] for t in traces for e in t["ev"] if e.get("e") == "fakegap"]
+    if gaps:
+        raise MachineryError("the fake websocket lacks a part of the protocol API that the server code uses: %s" % gaps[0])
     rej = []
     for t in traces:
         v = verdicts[t["tid"]]
